@@ -25,6 +25,14 @@ type wireFault struct {
 
 var errWireInjected = errors.New("verif: injected wire fault")
 
+// wireTimeoutErr is an injected failure (errors.Is(err, errWireInjected)) that reports Timeout() == true.
+type wireTimeoutErr struct{}
+
+func (wireTimeoutErr) Error() string   { return "verif: injected wire fault: connection timed out" }
+func (wireTimeoutErr) Timeout() bool   { return true }
+func (wireTimeoutErr) Temporary() bool { return true }
+func (wireTimeoutErr) Unwrap() error   { return errWireInjected }
+
 type wireLog struct {
 	mu      sync.Mutex
 	calls   []string
@@ -138,6 +146,10 @@ func (s *memSource) Read(buf []byte) (int, error) {
 		switch c {
 		case "fatal":
 			return 0, fmt.Errorf("read: %w", errWireInjected)
+		case "fatal-timeout":
+			// a genuine read FAILURE whose error value happens to answer Timeout() == true (ETIMEDOUT in
+			// a PathError, a net.OpError): it is not the read-deadline sentinel, the read did fail
+			return 0, &os.PathError{Op: "read", Path: "capture", Err: wireTimeoutErr{}}
 		case "zero":
 			return 0, nil
 		case "deadline":
